@@ -1096,8 +1096,52 @@ enum Sop {
     SeekRel(isize),
     /// writer only: `allocate(n, false)` at the cursor (the reader skips it)
     Alloc(usize),
+    /// reader only: annotation reads at the cursor, compared with the positional call there
+    /// (read_labels, read_label(0), read_label(1)); they never move the cursor
+    Labels,
+    Label(usize),
 }
-const SOPS: [Sop; 12] = [Sop::U8, Sop::U16, Sop::U32, Sop::I16, Sop::F32, Sop::Bytes(3), Sop::Bytes(5), Sop::Skip(1), Sop::Skip(61), Sop::SeekRel(-2), Sop::SeekRel(62), Sop::Alloc(8)];
+const SOPS: [Sop; 15] = [Sop::U8, Sop::U16, Sop::U32, Sop::I16, Sop::F32, Sop::Bytes(3), Sop::Bytes(5), Sop::Skip(1), Sop::Skip(61), Sop::SeekRel(-2), Sop::SeekRel(62), Sop::Alloc(8), Sop::Labels, Sop::Label(0), Sop::Label(1)];
+
+/// labels on the archives of the stream sequences: every 4th byte up to 60 and around 64/128,
+/// one or two names each (distinct per address)
+fn annotate_for_streams(a: &mut BinArchive) {
+    let size = a.size();
+    for addr in (0..size.min(140)).step_by(4) {
+        if addr % 12 == 8 {
+            continue;
+        }
+        let _ = a.write_label(addr, &format!("L{}", addr));
+        if addr % 8 == 4 {
+            let _ = a.write_label(addr, &format!("M{}", addr));
+        }
+    }
+}
+
+/// one annotation read through a reader, compared with the positional call at its cursor
+fn label_step(r: &mut mila::BinArchiveReader, a: &BinArchive, cur: usize, op: &Sop) -> Option<String> {
+    match op {
+        Sop::Labels => {
+            let got = r.read_labels().map_err(|x| x.to_string());
+            let want = a.read_labels(cur).map_err(|x| x.to_string());
+            if got.is_ok() != want.is_ok() || (got.is_ok() && got != want) {
+                return Some(format!("reader.read_labels() at cursor {} = {:?}, the positional read_labels({}) = {:?}", cur, got, cur, want));
+            }
+        }
+        Sop::Label(i) => {
+            let got = r.read_label(*i).map_err(|x| x.to_string());
+            let want = a.read_labels(cur).map(|b| b.and_then(|v| v.get(*i).cloned())).map_err(|x| x.to_string());
+            if got.is_ok() != want.is_ok() || (got.is_ok() && got != want) {
+                return Some(format!("reader.read_label({}) at cursor {} = {:?}, the positional bucket gives {:?}", i, cur, got, want));
+            }
+        }
+        _ => {}
+    }
+    if r.tell() != cur {
+        return Some(format!("an annotation read moved the cursor from {} to {}", cur, r.tell()));
+    }
+    None
+}
 
 fn stream_bytes(size: usize) -> Vec<u8> {
     (0..size).map(|i| ((i * 37 + i / 256 * 11 + 5) % 251) as u8).collect()
@@ -1108,7 +1152,8 @@ fn run_stream_seq(a: &mut BinArchive, data: &mut Vec<u8>, e: End, start: usize, 
     let size = data.len();
     // ---- reader
     {
-        let mut r = mila::BinArchiveReader::new(a, start);
+        let a_ro: &BinArchive = a;
+        let mut r = mila::BinArchiveReader::new(a_ro, start);
         let mut cur = start;
         for (k, op) in seq.iter().enumerate() {
             t.calls += 1;
@@ -1128,6 +1173,12 @@ fn run_stream_seq(a: &mut BinArchive, data: &mut Vec<u8>, e: End, start: usize, 
                     continue;
                 }
                 Sop::Alloc(_) => continue,
+                Sop::Labels | Sop::Label(_) => {
+                    if let Some(msg) = label_step(&mut r, a_ro, cur, op) {
+                        return Some(("long-lived-reader:labels".into(), format!("one reader on a {}-byte archive started at {}, sequence {:?}, step {}: {}", size, start, seq, k, msg)));
+                    }
+                    continue;
+                }
             };
             let ok = in_range(cur, width, size);
             let got: Result<Vec<u8>, String> = match op {
@@ -1177,6 +1228,7 @@ fn run_stream_seq(a: &mut BinArchive, data: &mut Vec<u8>, e: End, start: usize, 
                     w.seek(cur);
                     continue;
                 }
+                Sop::Labels | Sop::Label(_) => continue,
                 Sop::Alloc(n) => {
                     // insert n zero bytes at the cursor (appending at the end is always accepted;
                     // elsewhere the cursor must be an aligned address inside the data)
@@ -1245,6 +1297,7 @@ fn stream_case(size: usize, e: End, start: usize, seq: &[Sop], t: &mut Tally) ->
         let mut a = BinArchive::new(arch::endian(e));
         a.allocate_at_end(size);
         a.write_bytes(0, &data).map_err(|x| x.to_string())?;
+        annotate_for_streams(&mut a);
         Ok::<_, String>(run_stream_seq(&mut a, &mut data, e, start, seq, t))
     });
     match r {
@@ -1268,6 +1321,10 @@ fn two_reader_case(size: usize, e: End, start: usize, seq: &[Sop], t: &mut Tally
         let mut a2 = BinArchive::new(arch::endian(e2));
         a2.allocate_at_end(datas[1].len());
         a2.write_bytes(0, &datas[1]).map_err(|x| x.to_string())?;
+        annotate_for_streams(&mut a1);
+        annotate_for_streams(&mut a2);
+        let _ = a2.write_label(0, "only-in-the-second-archive");
+        let archives = [&a1, &a2];
         let start2 = (start * 7 + 3) % (size + 9);
         let mut readers = [mila::BinArchiveReader::new(&a1, start), mila::BinArchiveReader::new(&a2, start2)];
         let mut curs = [start, start2];
@@ -1294,6 +1351,12 @@ fn two_reader_case(size: usize, e: End, start: usize, seq: &[Sop], t: &mut Tally
                         continue;
                     }
                     Sop::Alloc(_) => continue,
+                    Sop::Labels | Sop::Label(_) => {
+                        if let Some(msg) = label_step(r, archives[which], *cur, op) {
+                            return Ok(Some(("two-readers:labels".into(), format!("two readers alive, sequence {:?} taken in turn from {} / {}: reader {} step {}: {}", seq, start, start2, which + 1, k, msg))));
+                        }
+                        continue;
+                    }
                 };
                 let ok = in_range(*cur, width, data.len());
                 let en = ends[which];
@@ -1436,6 +1499,45 @@ fn run_dangling(t: &mut Tally) -> Vec<(String, String, Value)> {
     out
 }
 
+/// Every ordered pair (old, new) of f32 bit patterns that compare specially as floats (the two
+/// zeros, NaNs with different payloads, infinities, denormals): the cell holds `old`, `new` is
+/// written positionally and through a stream, the cell must then hold exactly the bits of `new`
+/// (a write that is skipped "because the value is unchanged" compares floats, not bits).
+fn run_f32_pairs(t: &mut Tally) -> Vec<(String, String, Value)> {
+    let mut out = Vec::new();
+    let vals: [u32; 12] = [0x0000_0000, 0x8000_0000, 0x3F80_0000, 0xBF80_0000, 0x7FC0_0000, 0xFFC0_0001, 0x7FA0_0000, 0x7F80_0000, 0xFF80_0000, 0x0000_0001, 0x8000_0001, 0x7FC0_0001];
+    for e in [End::Little, End::Big] {
+        for &old in &vals {
+            for &new in &vals {
+                for stream in [false, true] {
+                    t.cases += 1;
+                    t.calls += 2;
+                    let r = util::catch(|| -> Result<u32, String> {
+                        let mut a = BinArchive::new(arch::endian(e));
+                        a.allocate_at_end(8);
+                        a.write_f32(4, f32::from_bits(old)).map_err(|x| x.to_string())?;
+                        if stream {
+                            let mut w = mila::BinArchiveWriter::new(&mut a, 4);
+                            w.write_f32(f32::from_bits(new)).map_err(|x| x.to_string())?;
+                        } else {
+                            a.write_f32(4, f32::from_bits(new)).map_err(|x| x.to_string())?;
+                        }
+                        a.read_u32(4).map_err(|x| x.to_string())
+                    });
+                    let cj = json!({"part": "f32-pairs", "endian": format!("{:?}", e), "old": old, "new": new, "stream": stream});
+                    match r {
+                        Err(p) => out.push((format!("panic@{}:f32-pairs", p.location), format!("write_f32 of bits {:#010x} over {:#010x} panicked: {}", new, old, p.message), cj)),
+                        Ok(Err(x)) => out.push(("f32-pairs:rejected".into(), format!("in-range write_f32 of bits {:#010x} over {:#010x} failed: {}", new, old, x), cj)),
+                        Ok(Ok(got)) if got != new => out.push((format!("f32-pairs:{}", if stream { "stream-write" } else { "positional-write" }), format!("{} write_f32 of bits {:#010x} over a cell holding {:#010x} ({:?}) left {:#010x} in the cell", if stream { "stream" } else { "positional" }, new, old, e, got), cj)),
+                        Ok(Ok(_)) => t.nontrivial += 1,
+                    }
+                }
+            }
+        }
+    }
+    out
+}
+
 /// stream read_bytes / positional read_bytes with counts around 2^16, 2^20 and 2^24 on a 17 MiB archive
 fn run_huge_counts(t: &mut Tally) -> Vec<(String, String, Value)> {
     let mut out = Vec::new();
@@ -1506,6 +1608,9 @@ fn explore(ctx: &Ctx) -> Outcome {
             t.violate(sig, summary, case);
         }
         for (sig, summary, case) in run_dangling(&mut t) {
+            t.violate(sig, summary, case);
+        }
+        for (sig, summary, case) in run_f32_pairs(&mut t) {
             t.violate(sig, summary, case);
         }
         total.absorb(t);
@@ -1584,6 +1689,10 @@ fn replay(_ctx: &Ctx, case: &Value) -> Vec<Violation> {
         let seq: Vec<Sop> = case["seq"].as_array().map(|a| a.iter().map(|i| SOPS[i.as_u64().unwrap_or(0) as usize % SOPS.len()]).collect()).unwrap_or_default();
         let mut t = Tally::new();
         return two_reader_case(200, e, start, &seq, &mut t).map(|(sig, summary)| vec![Violation { sig, summary, case: case.clone() }]).unwrap_or_default();
+    }
+    if case["part"] == "f32-pairs" {
+        let mut t = Tally::new();
+        return run_f32_pairs(&mut t).into_iter().filter(|(_, _, c)| c == case).map(|(sig, summary, c)| Violation { sig, summary, case: c }).collect();
     }
     if case["part"] == "dangling" {
         let mut t = Tally::new();
